@@ -79,3 +79,59 @@ Definition run_met (m : list (list cell)) (p : list step) : list obs :=
   | Some t => run_prog _ (met_kernels payload) t p
   | None => [OErr]
   end.
+
+(* ------------------------------------------------------------------------ *)
+(* Executable form of the C05 refinement statement (Props/C05.v), evaluated on
+   every correspondence case as a test of the statement itself: after every
+   selection the model's container is exactly the canonical representation of
+   the nested-list selection. *)
+From PF Require Import Model.RaggedSpec.
+
+Definition mnt_eqb (a b : mnt payload) : bool :=
+  Nat.eqb (nr a) (nr b) && Nat.eqb (nc a) (nc b) && list_eqb payload_eqb (vals a) (vals b)
+  && list_eqb Nat.eqb (offs a) (offs b).
+Definition met_eqb (a b : met payload) : bool :=
+  Nat.eqb (er a) (er b) && Nat.eqb (ec a) (ec b)
+  && list_eqb (list_eqb payload_eqb) (t2rows (evals a)) (t2rows (evals b))
+  && Nat.eqb (t2w (evals a)) (t2w (evals b)) && list_eqb Nat.eqb (eoffs a) (eoffs b).
+
+Fixpoint mnt_canon_prog (t : mnt payload) (m : cellmat payload) (p : list (nat * index)) : bool :=
+  match p with
+  | [] => true
+  | (d, ix) :: rest =>
+      match select _ _ (mnt_kernels payload) t ix d,
+            py_positions (if d =? 0 then length m else nc t) ix with
+      | Some t', Some pos =>
+          let m' := pick d pos m in
+          mnt_eqb t' (mnt_of_cells (if d =? 0 then nc t else length pos) m') && mnt_canon_prog t' m' rest
+      | None, None => true
+      | _, _ => false
+      end
+  end.
+
+Fixpoint met_canon_prog (t : met payload) (ws : list nat) (m : cellmat payload) (p : list (nat * index)) : bool :=
+  match p with
+  | [] => true
+  | (d, ix) :: rest =>
+      match select _ _ (met_kernels payload) t ix d,
+            py_positions (if d =? 0 then length m else length ws) ix with
+      | Some t', Some pos =>
+          let m' := pick d pos m in
+          let ws' := pick_ws d pos ws in
+          met_eqb t' (met_of_cells ws' m') && met_canon_prog t' ws' m' rest
+      | None, None => true
+      | _, _ => false
+      end
+  end.
+
+Definition canon_mnt (m : cellmat payload) (p : list (nat * index)) : bool :=
+  match mnt_from_mat payload m with
+  | Some t => mnt_eqb t (mnt_of_cells (nc t) m) && mnt_canon_prog t m p
+  | None => true
+  end.
+Definition canon_met (m : cellmat payload) (p : list (nat * index)) : bool :=
+  match met_from_cells payload m with
+  | Some t => let ws := map (@length payload) (hd [] m) in
+              met_eqb t (met_of_cells ws m) && met_canon_prog t ws m p
+  | None => true
+  end.
